@@ -145,7 +145,7 @@ Definition check40 (t : term) : term :=
                         end in
           let m_enc := enc_msgp s v in
           let m_dec := decode_m id e1 in
-          let detail := TL [TB m_enc; res_term m_dec; tn (N.of_nat (need v))] in
+          let detail := TL [TB m_enc; res_term m_dec; tn (N.of_nat (need (norm_m s v)))] in
           if negb same_enc && dec_ok && has_ptr_zero s v && bytes_eqb (enc_codec s v) e2 && bytes_eqb m_enc e1
           then v_known "ptr_to_zero_value_encoders_differ" detail
           else
@@ -157,7 +157,7 @@ Definition check40 (t : term) : term :=
                      | Ok (v', rest) => value_eqb v' (norm_m s v) && match rest with [] => true | _ => false end
                      | _ => false
                      end
-                     && (Z.of_nat (need v) =? kmin)%Z
+                     && (Z.of_nat (need (norm_m s v)) =? kmin)%Z
                 else true) in
           verdict spec_ok corr (wtb_m s v) detail
       | _, _ => v_parse
